@@ -264,7 +264,10 @@ fn body(p: &P) -> Result<(), String> {
 pub fn scenarios(tier: Tier) -> Vec<Scenario> {
     scenario_params(tier).into_iter().map(|(p, bound)| {
         let name = p.name();
-        Scenario::new(name, sched_cfg(), bound, move || body(&p))
+        let mut cfg = sched_cfg();
+        // wide scenarios (more than three senders): every non-default choice counts as a deviation
+        cfg.strict_deviations = p.seqs.len() > 3;
+        Scenario::new(name, cfg, bound, move || body(&p))
     }).collect()
 }
 
@@ -288,6 +291,9 @@ pub fn scenario_params(tier: Tier) -> Vec<(P, u32)> {
             }
         }
         add(P { seqs: vec![vec![L2, S], vec![L3]], transferred: false, mode: TimedPolling }, 2);
+        // many senders, few deviations
+        add(P { seqs: vec![vec![S], vec![L2], vec![S], vec![L3], vec![S, S], vec![L2]], transferred: false, mode: Blocking }, 1);
+        add(P { seqs: vec![vec![L2]; 8], transferred: true, mode: Set }, 1);
         add(P { seqs: vec![vec![L2], vec![L2], vec![S, S]], transferred: false, mode: Blocking }, 1);
         add(P { seqs: vec![vec![L3], vec![S], vec![L2]], transferred: true, mode: Set }, 1);
     } else {
@@ -313,6 +319,8 @@ pub fn scenario_params(tier: Tier) -> Vec<(P, u32)> {
             }
         }
         add(P { seqs: vec![vec![S], vec![L2]], transferred: false, mode: Blocking }, 4);
+        add(P { seqs: vec![vec![S], vec![L2], vec![S], vec![L3], vec![S, S], vec![L2]], transferred: false, mode: Blocking }, 2);
+        add(P { seqs: vec![vec![L2, S]; 8], transferred: true, mode: Polling }, 1);
         add(P { seqs: vec![vec![L2], vec![S]], transferred: true, mode: Set }, 4);
         for mode in modes {
             add(P { seqs: vec![vec![L2], vec![L2], vec![S, S]], transferred: true, mode }, 2);
@@ -358,6 +366,9 @@ fn e3(tier: Tier, rep: &mut Report) -> E3Stats {
         // thorough: one free-exploration pass per size mix and receiver mode is enough for binding
         if !tier.is_quick() && !seen_free.insert(format!("{:?}/{:?}", p.seqs, p.mode)) {
             continue;
+        }
+        if p.seqs.len() > 3 {
+            continue; // the packet model is searched for <= 3 senders (the quantifier's bound)
         }
         let cfg = Config { packets: p.seqs.iter().map(|s| s.iter().map(|z| packets_of(*z)).collect()).collect() };
         let g = pmodel::explore(&cfg);
@@ -418,7 +429,7 @@ fn e3(tier: Tier, rep: &mut Report) -> E3Stats {
     // under the scheduler's directed mode; the real trace must map back onto exactly that path
     let mut seen_mix: std::collections::HashSet<String> = Default::default();
     for (p, _) in scenario_params(tier) {
-        if p.seqs.len() > 2 && tier.is_quick() {
+        if (p.seqs.len() > 2 && tier.is_quick()) || p.seqs.len() > 3 {
             continue;
         }
         if !seen_mix.insert(format!("{:?}", p.seqs)) {
